@@ -95,6 +95,10 @@ type GenOpts struct {
 	ManyTiny   bool // add ≥300 tiny files
 	MinFiles   int
 	MaxFiles   int
+	// ForceKindSwap (1..7) adds exactly that kind swap; ForceRename makes the replaced
+	// entry (or its child) also the source of a rename.
+	ForceKindSwap int
+	ForceRename   bool
 }
 
 var dirPool = []string{"", "", "a/", "a/b/", "c/", "c/d/e/", "data/", "bin/"}
@@ -525,18 +529,19 @@ func GenPair(seed uint64, o GenOpts) *Pair {
 			p.feat("symlink-kept")
 		}
 	}
-	if o.KindSwaps && r.Chance(0.6) {
-		g.kindSwap()
+	if o.ForceKindSwap > 0 {
+		g.kindSwapN(o.ForceKindSwap-1, o.ForceRename)
+	} else if o.KindSwaps && r.Chance(0.6) {
+		g.kindSwapN(r.Intn(7), r.Chance(0.4))
 	}
 	return p
 }
 
 // kindSwap adds one of the kind-swap relations of DESIGN §4.1.
-func (g *genState) kindSwap() {
+func (g *genState) kindSwapN(which int, withRename bool) {
 	r, p := g.r, g.p
-	small := func() []byte { return RandomBytes(r.Range64(0, 5000), r.Uint64()) }
-	withRename := r.Chance(0.4)
-	switch r.Intn(7) {
+	small := func() []byte { return RandomBytes(r.Range64(1, 5000), r.Uint64()) }
+	switch which {
 	case 0: // file -> dir
 		d := small()
 		p.Old.PutFile("ks/f2d", d)
